@@ -429,7 +429,11 @@ func (v *SequenceDiagramVisitor) visitEndpoint(e *EndpointElement) error {
 				if !isHidden {
 					fmt.Fprintf(v.w, "%s<--%s : %s\n", sender, agent, payload)
 				}
-				v.w.Deactivate(agent)
+				if upto != nil {
+					// pairs with the Activate above; without it (a call back into an endpoint
+					// that is still being expanded) this would end the caller's own activation
+					v.w.Deactivate(agent)
+				}
 			}
 		} else {
 			deactivate := v.w.Activated(agent, isHuman || isCron)
